@@ -10,6 +10,15 @@ export GOCACHE=${GOCACHE:-$ROOT/.cache/go-build}
 REPO=${VERIF_REPO:-/repo/v4}   # the tree under test (default: /repo's working tree)
 WORK=$(mktemp -d "$ROOT/.work.XXXXXX")
 trap 'rm -rf "$WORK"' EXIT
+# Every scratch tree checked leaves a full set of objects in the build cache (the directory of the
+# tree is part of the cache key), so the cache is emptied when it has grown past a limit - only while no other run
+# is building (builds hold the lock shared, the cleaner takes it exclusively without waiting).
+mkdir -p "$ROOT/.cache"
+exec 9>"$ROOT/.cache/lock"
+if [ -d "$GOCACHE" ] && flock -xn 9; then
+  [ "$(du -sm "$GOCACHE" 2>/dev/null | cut -f1)" -gt "${VERIF_CACHE_MB:-8000}" ] && go clean -cache
+fi
+flock -s 9
 [ -x bin/vinstr ] || go build -o bin/vinstr ./cmd/vinstr || { echo "verif: cannot build vinstr" >&2; exit 2; }
 bin/vinstr -repo "$REPO" -rt "$ROOT/_rt" -out "$WORK" || { echo "verif: instrumentation failed (exit 2: machinery, not a verdict)" >&2; exit 2; }
 case "${1:-}" in
@@ -21,6 +30,7 @@ if [ "$REPO" != "/repo/v4" ]; then
   sed "s|=> /repo/v4|=> $REPO|" go.mod > "$WORK/go.mod"; cp go.sum "$WORK/go.sum"; MODFLAG="-modfile=$WORK/go.mod"
 fi
 go build $MODFLAG -overlay "$WORK/overlay.json" -o "$WORK/vcheck" ./cmd/vcheck || { echo "verif: harness build failed (machinery, not a verdict)" >&2; exit 2; }
+flock -u 9
 case "${1:-}" in
 replay) "$WORK/vcheck" replay "$2"; exit $? ;;
 list) "$WORK/vcheck" list; exit $? ;;
